@@ -13,19 +13,20 @@ sid, wt = sys.argv[1], sys.argv[2]
 checks = sys.argv[3:] or [sid.split("-")[0]]
 dst = os.path.join("/verif/seeded", sid)
 os.makedirs(dst, exist_ok=True)
+SUB = "MUT" if os.path.isdir(os.path.join(wt, "MUT")) else "_seed"
 for f in ("patch.diff", "demo.py", "notes.md"):
-    if os.path.exists(os.path.join(wt, "MUT", f)):
-        shutil.copy(os.path.join(wt, "MUT", f), os.path.join(dst, f))
+    if os.path.exists(os.path.join(wt, SUB, f)):
+        shutil.copy(os.path.join(wt, SUB, f), os.path.join(dst, f))
 meta = {"id": sid, "property": sid.split("-")[0], "ran": []}
 env = dict(os.environ, PYTHONPATH=wt)
 # confirm in the scratch worktree
 rc, out = sh("git stash list | wc -l", cwd=wt)
 rc_t, out_t = sh("/venv/bin/python -m pytest -q -p no:cacheprovider 2>&1 | tail -1", cwd=wt)
 meta["suite_with_change"] = out_t.strip()
-rc_d1, out_d1 = sh("/venv/bin/python MUT/demo.py 2>&1 | tail -3", cwd=wt, env=env)
-rc_d1 = subprocess.run("/venv/bin/python MUT/demo.py >/dev/null 2>&1", shell=True, cwd=wt, env=env).returncode
+rc_d1, out_d1 = sh("/venv/bin/python %s/demo.py 2>&1 | tail -3" % SUB, cwd=wt, env=env)
+rc_d1 = subprocess.run("/venv/bin/python %s/demo.py >/dev/null 2>&1" % SUB, shell=True, cwd=wt, env=env).returncode
 sh("git stash", cwd=wt)
-rc_d0 = subprocess.run("/venv/bin/python MUT/demo.py >/dev/null 2>&1", shell=True, cwd=wt, env=env).returncode
+rc_d0 = subprocess.run("/venv/bin/python %s/demo.py >/dev/null 2>&1" % SUB, shell=True, cwd=wt, env=env).returncode
 sh("git stash pop", cwd=wt)
 meta["demo_exit_with_change"] = rc_d1
 meta["demo_exit_without_change"] = rc_d0
